@@ -6,15 +6,19 @@ import (
 	"fmt"
 
 	logac "berty.tech/go-ipfs-log/accesscontroller"
+	"berty.tech/go-ipfs-log/identityprovider"
 	"github.com/libp2p/go-libp2p/core/crypto"
 )
 
 // VerifyEntryAuthor checks that an entry was written by the identity it names:
-// the entry must be signed with that identity's key and, for "orbitdb"
-// identities, the identity block must be consistent (its key signed its id,
-// and the key the id stands for signed that key). Naming a writer's id in an
-// entry signed by someone else is therefore not enough to be that writer.
-func VerifyEntryAuthor(e logac.LogEntry) error {
+// the entry must be signed with that identity's key and the identity block
+// must be genuine. For "orbitdb" identities that means its key signed its id,
+// and the key the id stands for signed that key; an identity of another type
+// can only be checked by its own provider, so it is accepted only when it is
+// of the type of the given provider and that provider vouches for it. Naming a
+// writer's id in an entry signed by someone else is therefore not enough to be
+// that writer.
+func VerifyEntryAuthor(e logac.LogEntry, p identityprovider.Interface) error {
 	identity := e.GetIdentity()
 	if identity == nil {
 		return fmt.Errorf("entry has no identity")
@@ -27,7 +31,11 @@ func VerifyEntryAuthor(e logac.LogEntry) error {
 	}
 
 	if identity.Type != "orbitdb" {
-		return nil
+		if p == nil || p.GetType() != identity.Type {
+			return fmt.Errorf("identity of type %q cannot be verified", identity.Type)
+		}
+
+		return p.VerifyIdentity(identity)
 	}
 
 	if identity.Signatures == nil {
